@@ -266,6 +266,32 @@ func runC33(c *Ctx) {
 		}
 		c.Check(n >= 3, r4, "lazy-migration sites inventoried", token.NoPos, fmt.Sprintf("%d", n), fmt.Sprintf("only %d sites take NextCentroidID (3 known: upsertItem, Get, Delete)", n), nil)
 	}
+
+	r5 := c.Rule("R5", "the cleanup of an id's previous vector entry on upsert (deduplication) is switched off only by the caller: domainIndex.deduplicationEnabled is assigned by its exported setter alone, never toggled inside an operation", 2)
+	{
+		fld := w.Field("ai/vector", "domainIndex", "deduplicationEnabled")
+		var writers []string
+		var pos token.Pos
+		for _, fn := range w.declaredFuncs("ai/vector") {
+			for _, ws := range w.writesOf(fn, fld, true) {
+				writers = append(writers, shortKey(fn.Key))
+				if fn.Obj == nil || fn.Obj.Name() != "SetDeduplication" {
+					pos = ws.Pos
+				}
+			}
+		}
+		writers = dedup(writers)
+		c.Check(len(writers) >= 1, r5, "deduplicationEnabled writers inventoried", token.NoPos, fmt.Sprintf("%v", writers), "no writer found", nil)
+		c.Check(sameSet(writers, "SetDeduplication"), r5, "deduplicationEnabled is written only by SetDeduplication", pos, "setter only",
+			fmt.Sprintf("deduplicationEnabled is also assigned by %v: with the cleanup switched off inside an operation, an id that occurs again (a batch repeating an id, a re-upsert) keeps its superseded vector entry next to the new one - Query returns the id twice, one hit scored with the stale vector", writers), nil)
+		// and the cleanup in upsertItem is guarded by nothing else than that flag
+		fu := w.Fn("ai/vector.domainIndex.upsertItem")
+		gu := w.G(fu)
+		c.Analysed(fu)
+		info := fu.Pkg.TypesInfo
+		guards := gu.condNodes(func(e ast.Expr) bool { return fieldOfSelector(info, e) == fld })
+		c.Check(len(guards) >= 1, r5, "upsertItem: cleanup of the previous entry is guarded by the flag", fu.Decl.Pos(), fmt.Sprintf("%d guard(s)", len(guards)), "the deduplication guard is gone from upsertItem", nil)
+	}
 }
 
 func be(n *GNode) *ast.BinaryExpr { return n.Ast.(*ast.BinaryExpr) }
